@@ -311,7 +311,138 @@ def duplicates(P, R):
     R.floor('C16.MPT.1', 2)
 
 
+def reader_contract(P, R, rule='C16.LOOK.2'):
+    """The lookahead rules treat the whitespace/comment skipper as "returns the next significant character, consumed".
+    Decided here: at every `return c` of the skipper the cursor is exactly one past the byte held in c (or on the NUL
+    when c is the terminator), whatever was skipped or peeked in between - a return that has already backed up makes
+    the caller's own push-back land inside the previous token."""
+    f = P.need_fn('conf_parse_whitespace')
+    cur = lambda e: is_field(e, 'curr', 'conf_parse')
+    # state: tuple of (var, offset, zero) ; offset = cursor - position of the byte read into var
+    def upd(st, fn):
+        return tuple(sorted((v, max(-2, min(3, fn(v, o))), z) for v, o, z in st))
+
+    def on_event(st, s):
+        ev = s.ev
+        if ev['k'] == 'store' and cur(ev.get('lhs')) and ev.get('op') in ('++', '--'):
+            d = 1 if ev['op'] == '++' else -1
+            return upd(st, lambda v, o: o + d)
+        if ev['k'] in ('store', 'decl'):
+            tgt = ev['lhs']['name'] if ev['k'] == 'store' and is_var(ev.get('lhs')) else ev.get('var') if ev['k'] == 'decl' else None
+            val = ev.get('rhs') if ev['k'] == 'store' else ev.get('init')
+            if tgt and isinstance(val, dict):
+                rest = tuple(x for x in st if x[0] != tgt)
+                if val.get('k') == 'un' and val.get('op') == '*' and isinstance(val.get('e'), dict) and val['e'].get('k') == 'un' and val['e'].get('op') == '++' and cur(val['e'].get('e')):
+                    return tuple(sorted(rest + ((tgt, 1 if val['e'].get('postfix') else 0, None),)))
+                if val.get('k') == 'un' and val.get('op') == '*' and cur(val.get('e')):
+                    return tuple(sorted(rest + ((tgt, 0, None),)))
+                return rest
+        return st
+
+    def on_edge(st, e):
+        r = rules.edge_rel(e)
+        if r and is_var(r[0]) and const_of(r[2]) is not None:
+            c = const_of(r[2])
+            z = None
+            if r[1] == '==':
+                z = (c == 0)
+            elif r[1] == '!=' and c == 0:
+                z = False
+            if z is not None:
+                out = []
+                for v, o, zz in st:
+                    if v == r[0]['name']:
+                        if zz is not None and zz != z:
+                            return None
+                        out.append((v, o, z))
+                    else:
+                        out.append((v, o, zz))
+                return tuple(sorted(out))
+        return st
+    before, at_exit, sin, bout = f.forward((), on_event, on_edge)
+    n = 0
+    for s in f.sites():
+        if s.ev['k'] != 'ret' or not is_var(s.ev.get('val')):
+            continue
+        v = s.ev['val']['name']
+        sts = before.get(s.key, set())
+        n += 1
+        bad = []
+        for st in sts:
+            m = [x for x in st if x[0] == v]
+            if not m:
+                bad.append('%s does not hold a byte read at the cursor' % v)
+                continue
+            _, o, z = m[0]
+            want = 0 if z else 1
+            if o != want:
+                bad.append('cursor is %d past the byte in %s, expected %d%s' % (o, v, want, ' (terminator)' if z else ''))
+        R.ob(rule, bool(sts) and not bad, s, 'the skipper returns %s with the cursor just behind that character%s' % (v, (': ' + '; '.join(sorted(set(bad)))) if bad else ''), key='reader-contract')
+    R.floor(rule, 3, 'returns of the whitespace/comment skipper')
+
+
+def token_alphabet(P, R, rule='C16.TAB.4'):
+    """Bare words end where the syntax begins: no character the parser gives a syntactic meaning (compared against a
+    character literal in the entry parser, the skipper or the string reader: separators, brackets, quote, comment
+    start) belongs to the bare-word alphabet - otherwise `word//comment` or `word;` is swallowed into the word."""
+    import re as _re
+    ci = P.need_fn('ctype_init')
+    alpha = None
+    for s in ci.sites():
+        if s.ev['k'] == 'decl' and s.ev.get('static') and (s.ev.get('init') or {}).get('k') == 'str' and 'token' in (s.ev.get('var') or ''):
+            alpha = s.ev['init']['v']
+            site = s
+    if alpha is None:
+        raise AnalysisBroken('the bare-word alphabet (token_chars) has vanished')
+    delims = set()
+    for name in ('conf_parse_entry', 'conf_parse_whitespace', 'conf_parse_string'):
+        f = P.need_fn(name)
+        for b in f.reachable_blocks():
+            for e in f.out[b]:
+                r = e.rel()
+                if r and isinstance(r[2], dict) and r[2].get('k') == 'chr' and r[2]['v'] not in (0,):
+                    ch = chr(r[2]['v'])
+                    if not ch.isalnum():
+                        delims.add(ch)
+                for v in (e.vs or []):
+                    if isinstance(v, int) and 0 < v < 128 and not chr(v).isalnum() and name != 'conf_parse_string':
+                        delims.add(chr(v))
+    both = sorted(set(alpha) & delims)
+    R.ob(rule, not both, site, 'the bare-word alphabet shares no character with the syntax characters %s (shared: %s)' % (''.join(sorted(delims - {chr(10), chr(13), chr(9)})), both), key='token-alphabet')
+    R.ob(rule, len(delims) >= 8, site, 'syntax characters were found in the parser (%d)' % len(delims), key='delims-found', nontrivial=False)
+
+
+def keyword_tables(P, R, rule='C16.TAB.5'):
+    """Keyword tables stored as fixed-width character rows keep their terminators: every string literal initialising a
+    row of a `char[N][M]` table is shorter than M (C allows dropping the NUL silently; strcmp then runs into the next row)."""
+    import re as _re
+    n = 0
+    seen = []
+    for name, defs in P.globals.items():
+        for unit, g in defs:
+            seen.append((unit, g, None))
+    for f in P.fns.values():
+        for s in f.sites():
+            if s.ev['k'] == 'decl' and s.ev.get('static'):
+                seen.append((f.unit, {'t': s.ev.get('t'), 'init': s.ev.get('init'), 'name': s.ev.get('var'), 'loc': s.ev.get('loc')}, s))
+    for unit, g, s in seen:
+        if unit.startswith('tests/'):
+            continue
+        m = _re.match(r'^(?:const )?char\[(\d+)\]\[(\d+)\]$', (g.get('t') or '').strip())
+        if not m or not isinstance(g.get('init'), dict):
+            continue
+        width = int(m.group(2))
+        for it in g['init'].get('items', []):
+            if it.get('k') == 'str':
+                n += 1
+                R.ob(rule, len(it['v'].encode()) < width, s if s is not None else P.relloc(g.get('loc', '?')), 'keyword "%s" fits its %d-byte row of %s with its terminator' % (it['v'], width, g.get('name')), key='row:%s:%s' % (g.get('name'), it['v']))
+    R.ob(rule, True, P.need_fn('conf_parse_boolean'), 'scanned the fixed-width keyword tables of all units: %d rows' % n, key='scan', nontrivial=False)
+
+
 def run(P, R, tier):
+    reader_contract(P, R)
+    token_alphabet(P, R)
+    keyword_tables(P, R)
     f, before, reads, unreads = lookahead(P, R)
     follow(P, R, f, before, reads)
     escapes(P, R)
